@@ -18,12 +18,16 @@ func c14Mut(r *rng, id string) {
 	if v == 0 {
 		proto = 1
 	}
-	rcv, err := newCnode(ccfg{label: label, key: k1, keys: [][]byte{k2}, verifyIn: true, verifyOut: true, name: "R", proto: proto})
+	src := []string{"genuine1", "genuine1", "genuine2", "foreign", "removed", "otherlabel", "plain", "skipown", "skipunlabelled"}[r.intn(9)]
+	skip := strings.HasPrefix(src, "skip")
+	if skip && label == "" {
+		label = "blue"
+	}
+	rcv, err := newCnode(ccfg{label: label, key: k1, keys: [][]byte{k2}, verifyIn: true, verifyOut: true, name: "R", proto: proto, skipIn: skip})
 	if err != nil {
 		return
 	}
 	defer rcv.m.Shutdown()
-	src := []string{"genuine1", "genuine1", "genuine2", "foreign", "removed", "otherlabel", "plain"}[r.intn(7)]
 	sc := ccfg{label: label, key: k1, verifyIn: true, verifyOut: true, proto: proto}
 	switch src {
 	case "genuine2":
@@ -36,6 +40,8 @@ func c14Mut(r *rng, id string) {
 		sc.label = label + "x"
 	case "plain":
 		sc.key = nil
+	case "skipunlabelled":
+		sc.label = "" // same key, sealed with an empty label as associated data
 	}
 	snd, err := newCnode(sc)
 	if err != nil {
@@ -65,6 +71,12 @@ func c14Mut(r *rng, id string) {
 	} else {
 		base = captureStream(snd, func() { snd.m.SendReliable(to, payload) })
 	}
+	if src == "skipown" {
+		// the outer layer that checks labels has removed the header already
+		if nb, _, err := ml.RemoveLabelHeaderFromPacket(base); err == nil {
+			base = nb
+		}
+	}
 	if src == "otherlabel" {
 		// re-head the traffic with the receiver's label
 		if nb, _, err := ml.RemoveLabelHeaderFromPacket(base); err == nil {
@@ -72,6 +84,9 @@ func c14Mut(r *rng, id string) {
 		}
 	}
 	hdr := len2(label)
+	if skip {
+		hdr = 0
+	}
 	verOff := hdr // packet: version byte right behind the label header
 	if path == "str" {
 		verOff = hdr + 5 // encryptMsg type byte + 4 length bytes
